@@ -25,7 +25,16 @@ def project_files():
     ts = (DATA / "trig.ts.txt").read_text()
     rs = (DATA / "trig.rs.txt").read_text()
     dup = "def shared_%s(items, channel, storage):\n    total = compute_total(items)\n    average = total / max(len(items), 1)\n    report = build_report(total, average)\n    publish(report, channel)\n    archive(report, storage)\n    return None\n"
-    return {"src/a.py": py + "\n\n" + dup % "a", "src/web/b.ts": ts, "src/core/c.rs": rs, "lib/d.py": "def g():\n    return 777\n\n\n" + dup % "d",
+    # duplicated blocks that are suppressed by comments in the file (looked up again, by path, when the cross-file pass runs)
+    blk1 = ["    conn = open_connection(host)", "    cursor = conn.cursor()", "    cursor.execute(query)", "    rows = cursor.fetchall()", "    conn.close()", "    audit(rows)"]
+    blk2 = ["    first = load_first(source)", "    second = load_second(source)", "    merged = merge(first, second)", "    checked = validate(merged)", "    stored = persist(checked)", "    announce(stored)"]
+    sup = {}
+    for n, (d, tag) in enumerate((("src", "p"), ("lib", "q"))):
+        sup[f"{d}/sup_block_{tag}.py"] = "\n".join([f"def fetch_{tag}(host, query):", "    # thailint: ignore-start dry"] + blk1 + ["    # thailint: ignore-end", "    return None", ""])
+        sup[f"{d}/sup_dry_{tag}.py"] = "\n".join([f"def combine_{tag}(source):", "    # dry: ignore-block"] + blk2 + ["    return None", ""])
+    # enough files for --parallel to use its process pool (2 x workers), each with one finding
+    fill = {f"src/fill/f{i:02d}.py": f"def fill_{i}(a):\n    return a + {7100 + i}\n" for i in range(18)}
+    return {**sup, **fill, "src/a.py": py + "\n\n" + dup % "a", "src/web/b.ts": ts, "src/core/c.rs": rs, "lib/d.py": "def g():\n    return 777\n\n\n" + dup % "d",
             "lib/helpers/e.ts": "function h() {\n  return 888;\n}\n", ".thailint.yaml": CFG}
 
 
@@ -73,6 +82,7 @@ def impl_case(args) -> dict:
         spellings = [("dot", proj, ".", [], []), ("abs", proj, str(proj), [], []), ("rel-from-parent", base, "proj", [], []),
                      ("abs-from-elsewhere", other, str(proj), [], []), ("rel-from-elsewhere", other, os.path.relpath(proj, other), [], []),
                      ("subdir-dotdot", proj / "src", "..", [], []),
+                     ("dot-parallel", proj, ".", [], ["--parallel"]),
                      ("abs-parallel", proj, str(proj), [], ["--parallel"]), ("rel-from-parent-parallel", base, "proj", [], ["--parallel"]),
                      ("global-config-abs", proj, str(proj), ["--config", ".thailint.yaml"], []),
                      ("global-config-dot", proj, ".", ["--config", ".thailint.yaml"], [])]
@@ -174,7 +184,7 @@ def run(tier: str, seed: int, st: core.ProofStatus) -> core.Result:
     res = core.Result()
     res.rule = ("exhaustive: every built-in excluded directory name, every test-marker / default-ignore substring and neutral names as the "
                 "parent directory of one multi-language project x 6 spellings (., absolute, relative from the parent, absolute and "
-                "relative from another cwd, `..` from a sub-directory) x every linter command (quick: seeded sample of 8 commands per "
+                "relative from another cwd, `..` from a sub-directory; three of them also with --parallel on a project large enough to be pooled) x every linter command (quick: seeded sample of 8 commands per "
                 "parent); all outputs must equal the baseline (neutral parent, `.`) up to path spelling; non-trivial = a compared run with "
                 ">= 1 violation")
     rng = core.sub_rng(seed, PROP, tier)
@@ -203,6 +213,9 @@ def run(tier: str, seed: int, st: core.ProofStatus) -> core.Result:
                                                            note=f"spelling {sp['target']!r} from {sp['cwd']!r}: the model resolves it to {'/'.join(m['resolved'])}, the system to {sp['real']}"))
     drv_sp.close()
     base = {(r["cmd"]): r for r in impls[0]["runs"] if r["spelling"] == "dot"}
+    # the project is large enough for --parallel to use its process pool; what the pooled run loses against the sequential one is
+    # C07's subject (F07a), so parallel spellings are compared with the parallel baseline
+    base_par = {(r["cmd"]): r for r in impls[0]["runs"] if r["spelling"] == "dot-parallel"}
     for (i, p, cs, _), im in zip(work, impls):
         if im["errors"]:
             res.evaluations += 1
@@ -211,7 +224,7 @@ def run(tier: str, seed: int, st: core.ProofStatus) -> core.Result:
         for r in im["runs"]:
             res.evaluations += 1
             res.bump("spelling", r["spelling"])
-            b = base[r["cmd"]]
+            b = base_par[r["cmd"]] if r["spelling"].endswith("-parallel") else base[r["cmd"]]
             if r["vs"]:
                 res.nontrivial.add(core.canon([p, r["cmd"], r["spelling"]]))
             if r["vs"] != b["vs"] or r["exit"] != b["exit"]:
